@@ -7,7 +7,7 @@ import threading
 import time
 
 from .. import observe
-from ..observe import (Event, Interpreter, MachineLogic, SyncInterpreter, config_of,
+from ..observe import (Event, Interpreter, MachineLogic, SyncInterpreter, config_of, drain,
                        create_machine, run_virtual, xs)
 from .common import Result, Watchdog, h, rng_for
 
@@ -299,10 +299,13 @@ def run_async(res, script, idx):
                     snap = it.get_snapshot()
                     await it.stop()
                     await census_async(J, it, log, base_tasks, loop)
+                    before_ = set(J.seen)
                     it = Interpreter.from_snapshot(snap, machine)
                     restored[id(it)] = False
                     for a in _descendants(it):
                         restored[id(a)] = False
+                    for oid in set(J.seen) - before_:      # every interpreter from_snapshot created
+                        restored.setdefault(oid, False)
                     try:
                         await it.start()
                     except Exception as x:  # noqa: BLE001
@@ -491,10 +494,15 @@ def run_sync(res, script, idx):
                     snap = it.get_snapshot()
                     it.stop()
                     census_sync(J, it, log, all_kids)
+                    before_ = set(J.seen)
                     it = SyncInterpreter.from_snapshot(snap, machine)
                     restored[id(it)] = False
                     for a in _descendants(it):
                         restored[id(a)] = False
+                    # (a restored child that had already finished is dropped by its supervisor at
+                    #  once: every interpreter from_snapshot created counts, reachable or not)
+                    for oid in set(J.seen) - before_:
+                        restored.setdefault(oid, False)
                     try:
                         it.start()
                     except Exception as x:  # noqa: BLE001
@@ -576,6 +584,153 @@ def finish(res, J, idx):
         res.violation(J.bad[0], J.bad[1], {"engine": J.engine, "script": J.script}, case={"idx": idx})
 
 
+def restored_finished_root_resumes(res, root_status):
+    """(async) A hierarchy whose ROOT had already finished (done) or failed (error) while a spawned
+    child was still running is snapshotted, restored and start()ed: start() is how a restored
+    hierarchy is resumed, so the restored child works again; stop() then releases everything."""
+    from ..observe import MachineLogic as ML
+    out = {}
+
+    async def body():
+        def boom(i, c, e, a):
+            raise RuntimeError("boom")
+        child_cfg = {"id": "kid", "initial": "idle", "context": {}, "states": {
+            "idle": {"on": {"PING": "pinged"}}, "pinged": {}}}
+        pa = {"entry": [{"type": "xstate.spawnChild", "params": {"src": "kid", "id": "w", "systemId": "sys"}}],
+              "on": {"FINISH": "fin", "FAIL": "bad"}}
+        parent_cfg = {"id": "p", "initial": "a", "context": {}, "states": {
+            "a": pa, "fin": {"type": "final"}, "bad": {"invoke": {"src": "failing", "id": "f"}}}}
+
+        def failing(i, c, e):
+            raise RuntimeError("service failed")
+
+        def mk():
+            return create_machine(parent_cfg, logic=ML(services={
+                "kid": create_machine(child_cfg, logic=ML()), "failing": failing}))
+        it = Interpreter(mk())
+        await it.start()
+        await drain(it)
+        await it.send("FINISH" if root_status == "done" else "FAIL")
+        await drain(it)
+        for _ in range(20):
+            await asyncio.sleep(0)
+        out["orig"] = (it.status, getattr(it.system.get("sys"), "status", None))
+        snap = it.get_snapshot()
+        await it.stop()
+        tw = Interpreter.from_snapshot(snap, mk())
+        kid = tw.system.get("sys")
+        out["restored"] = (tw.status, getattr(kid, "status", None))
+        if kid is None or out["orig"] != (root_status, "running"):
+            out["skip"] = True
+            await tw.stop()
+            return
+        base_tasks = set(asyncio.all_tasks())
+        await tw.start()
+        await kid.send("PING")
+        for _ in range(200):
+            if "kid.pinged" in config_of(kid):
+                break
+            await asyncio.sleep(0)
+        out["kid_cfg"] = sorted(config_of(kid))
+        out["kid_status"] = kid.status
+        await tw.stop()
+        await settle_stops()
+        out["after_stop"] = (tw.status, kid.status)
+        out["tasks"] = len([t for t in asyncio.all_tasks() if t not in base_tasks and not t.done()
+                            and t is not asyncio.current_task()])
+    run_virtual(body)
+    res.evaluations += 1
+    res.count("restored-finished-root.scenarios." + root_status)
+    res.hashes.add(h(["restored-root", root_status]))
+    wit = {"root_status": root_status, "observed": out}
+    if out.get("skip"):
+        res.count("restored-finished-root.not-set-up")
+        return
+    if out.get("kid_cfg") != ["kid", "kid.pinged"]:
+        res.violation("C14:start-does-not-resume-a-restored-hierarchy/%s-root/async" % root_status,
+                      "restored root %r with a running child: after start() the child (status %s) did not process "
+                      "an event sent to it (configuration %s)" % (out["restored"], out.get("kid_status"),
+                                                                  out.get("kid_cfg")), wit)
+    elif out.get("after_stop", (None, None))[1] != "stopped" or out.get("tasks"):
+        res.violation("C14:restored-hierarchy-not-released-by-stop/async",
+                      "after stop(): statuses %s, %s task(s) alive" % (out.get("after_stop"), out.get("tasks")), wit)
+
+
+def stop_while_a_child_is_stopping_itself(res, gate_ms):
+    """(sync) root -> kid -> (g1, g2).  kid finishes, so its OWN actor thread stops it - and is parked
+    inside g1.stop(), waiting for g1's macrostep in flight on a timer thread (held by a gate).  The
+    main thread calls root.stop() meanwhile: when THAT returns every descendant is stopped."""
+    import threading
+    gate, blocked = threading.Event(), threading.Event()
+    seen, ticks = {}, []
+
+    def block(i, c, e, a):
+        seen["g1"] = i
+        blocked.set()
+        gate.wait(10.0)
+
+    def tick(i, c, e, a):
+        seen["g2"] = i
+        ticks.append(time.monotonic())
+
+    def capture(i, c, e, a):
+        seen["kid"] = i
+    ML = MachineLogic
+    g1 = create_machine({"id": "g1", "initial": "s", "context": {}, "states": {
+        "s": {"after": {"20": {"actions": ["block"]}}}}}, logic=ML(actions={"block": block}))
+    g2 = create_machine({"id": "g2", "initial": "t1", "context": {}, "states": {
+        "t1": {"entry": ["tick"], "after": {"20": "t2"}}, "t2": {"entry": ["tick"], "after": {"20": "t1"}}}},
+        logic=ML(actions={"tick": tick}))
+    kid = create_machine({"id": "kid", "initial": "run", "context": {}, "states": {
+        "run": {"entry": ["capture", "spawn_g1", "spawn_g2"], "on": {"FIN": "fin"}}, "fin": {"type": "final"}}},
+        logic=ML(actions={"capture": capture}, services={"g1": g1, "g2": g2}))
+    root_m = create_machine({"id": "root", "initial": "a", "context": {}, "states": {"a": {"entry": ["spawn_kid"]}}},
+                            logic=ML(services={"kid": kid}))
+
+    def wait_until(pred, timeout=6.0):
+        t0 = time.monotonic()
+        while time.monotonic() - t0 < timeout:
+            if pred():
+                return True
+            time.sleep(0.002)
+        return pred()
+    root = SyncInterpreter(root_m).start()
+    out = {}
+    try:
+        ok = blocked.wait(6.0) and wait_until(lambda: "g2" in seen and len(ticks) >= 2) and "kid" in seen
+        if ok:
+            k_, a_, b_ = seen["kid"], seen["g1"], seen["g2"]
+            k_.send("FIN")
+            ok = wait_until(lambda: k_.status == "stopped" and a_.status == "stopped") and b_.status == "running"
+        if not ok:
+            res.count("stop-while-child-stops-itself.not-set-up")
+            return
+        opener = threading.Timer(gate_ms / 1e3, gate.set)
+        opener.daemon = True
+        opener.start()
+        t0 = time.monotonic()
+        root.stop()
+        t_ret = time.monotonic()
+        out["stop_took_ms"] = round((t_ret - t0) * 1e3)
+        out["g2_status_at_return"] = b_.status
+        out["gate_open_at_return"] = gate.is_set()
+        time.sleep(0.15)
+        out["g2_entries_after_return"] = len([t for t in ticks if t > t_ret])
+    finally:
+        gate.set()
+        root.stop()
+        time.sleep(0.05)
+    res.evaluations += 1
+    res.count("stop-while-child-stops-itself.scenarios")
+    res.hashes.add(h(["stop-while-stopping", gate_ms]))
+    if out["g2_status_at_return"] != "stopped" or out["g2_entries_after_return"]:
+        res.violation("C14:stop-returned-while-a-descendant-was-still-live/sync",
+                      "root.stop() returned after %d ms while a grandchild was %r; it entered %d more state(s) "
+                      "afterwards (another thread was half-way through stopping its parent)" % (
+                          out["stop_took_ms"], out["g2_status_at_return"], out["g2_entries_after_return"]),
+                      {"gate_ms": gate_ms, "observed": out})
+
+
 def run_chunk(spec):
     observe.quiet_logs()
     res = Result()
@@ -600,6 +755,16 @@ def run_chunk(spec):
                 wd.arm("cancelled start %d %s" % (at, how))
                 run_async_cancelled_start(res, base + 90000 + k, at, how)
             k += 1
+    for rs in ("done", "error"):
+        if k % NCHUNKS == ci:
+            wd.arm("restored finished root %s" % rs)
+            restored_finished_root_resumes(res, rs)
+        k += 1
+    for gate_ms in (300, 500) * (1 if tier == "quick" else 3):
+        if k % NCHUNKS == ci:
+            wd.arm("stop while a child stops itself")
+            stop_while_a_child_is_stopping_itself(res, gate_ms)
+        k += 1
     wd.disarm()
     return res.to_json()
 
@@ -607,6 +772,7 @@ def run_chunk(spec):
 def quota(counters, tier):
     out = []
     for k in ("histories.async", "histories.sync", "status-writes.checked", "census.after-stop",
+              "restored-finished-root.scenarios.done", "stop-while-child-stops-itself.scenarios",
               "census.inside-stopping-action", "census.interpreters-checked"):
         if counters.get(k, 0) == 0:
             out.append("monitor-never-reached:" + k)
